@@ -162,11 +162,14 @@ pub fn fake_hw(h: u32, procs: &[(u32, u32)], map: Vec<u32>) -> Hw {
 }
 
 /// The H4 Linux platform over a harness kernel: cpu 0 plus the given ids (typically >= 64), two nodes.
-pub fn linux_hw(h: u32, ids: &[u32], nodes: &[u32], nr_cpu_ids: usize, map: Vec<u32>) -> Hw {
+pub fn linux_hw(h: u32, ids: &[u32], nodes: &[u32], nr_cpu_ids: usize, map: Vec<u32>, top_extra: bool) -> Hw {
     let mut all: BTreeSet<u32> = ids.iter().copied().collect();
     all.insert(0);
     let mut possible = all.clone();
-    possible.insert(nr_cpu_ids as u32 - 1); // the id space reaches the top of the kernel's mask
+    if top_extra {
+        possible.insert(nr_cpu_ids as u32 - 1); // the id space reaches the top of the kernel's mask
+    }
+    // (without it the largest processor id IS the reported maximum: the boundary of every "id <= max" filter)
     let mut members: BTreeMap<u32, BTreeSet<u32>> = BTreeMap::new();
     members.entry(nodes[0]).or_default().insert(0);
     for (i, id) in ids.iter().enumerate() {
@@ -524,7 +527,7 @@ fn linux_instance(h: u32, e: usize) -> Hw {
     let ids: Vec<u32> = L_MODEL_IDS.iter().map(|m| emb_id(e, *m)).collect();
     let need = *ids.iter().max().unwrap() as usize + 1;
     let nr = L_NR_CPU_IDS.iter().copied().find(|n| *n >= need).unwrap().max(L_NR_CPU_IDS[e]);
-    linux_hw(h, &ids, &[1, 3], nr, ids.clone())
+    linux_hw(h, &ids, &[1, 3], nr, ids.clone(), e % 2 == 1)
 }
 
 /// TLC-generated histories.  `bindings`: comma separated pairs out of RF, LF, RL, FL (instance 1, instance 2).
